@@ -341,7 +341,7 @@ func runLockLife(hist, sa, ua string, maxWait time.Duration) lifeResult {
 	case <-hS.be.reached:
 	case sErr = <-sDone:
 		sFinished = true // never reached its Put (failed before): nothing is held
-	case <-time.After(20 * time.Second):
+	case <-time.After(120 * time.Second):
 		return lifeResult{out: "timeout s"}
 	}
 	uAcq0, uEnt0 := hU.be.acquired.Load(), hU.be.entered.Load()
@@ -388,7 +388,7 @@ func runLockLife(hist, sa, ua string, maxWait time.Duration) lifeResult {
 		res.uFinished = uFinished
 		close(hS.be.proceed)
 	}
-	deadline := time.After(30 * time.Second)
+	deadline := time.After(120 * time.Second)
 	if !sFinished {
 		select {
 		case sErr = <-sDone:
